@@ -1,6 +1,7 @@
 import Btcdeb
 import Driver.Run
 import Driver.Gen
+import Driver.Session
 open Btcdeb
 
 namespace Driver
@@ -69,6 +70,8 @@ def dispatch (spec : Bool) (line : String) : String :=
   | "SNSWEEP" :: a => cmdSNSWEEP a
   | "RUN" :: a => cmdRun spec false a
   | "RUNV" :: a => cmdRun spec true a
+  | "SESSION" :: a => cmdSession spec false a
+  | "SESSIONV" :: a => cmdSession spec true a
   | [""] => ""
   | _ => "bad-op"
 
